@@ -42,6 +42,7 @@ def main(tier):
                "field=%s uses of the parameter=%d" % (fld, nuses), sample={"evaluator": ev, "hop": "Parser::new -> field %s" % fld})
         # hop 3: the Ans arm builds the leaf from that field, consumes one token, no hook
         tv = m.tokvar("@")
+        tvfull = "Token::%s" % tv
         arm = m.prim().get(tv) if tv else None
         ok3 = False
         leaf = None
@@ -77,6 +78,28 @@ def main(tier):
                     if isinstance(lhs, tuple) and lhs[0] == "field" and lhs[-1] == fld:
                         nwrites += 1
                         run.ob(False, "field-write|%s|%s" % (ev, g.short), "C14 the stored placeholder is never modified", g.key, T.show(s)[:160])
+        # ... and read exactly once: in the `@` arm (hop 3).  Any other read makes some construct depend on the
+        # placeholder without `@` denoting it (a folded `-@`, a default for an empty argument, ...)
+        reads = []
+        ans_made = []
+        for g in F.fns:
+            if g.evaluator != ev or not g.thir or g.derived or g.key.endswith("parser::Parser::new"):
+                continue
+            t = m.tb.fn_term(g)
+            compared = 0
+            for s in subterms(t):
+                if isinstance(s, tuple) and len(s) == 3 and s[0] == "field" and s[2] == fld and "::parser::" in g.key:
+                    reads.append(g.short)
+                if isinstance(s, tuple) and len(s) == 4 and s[0] == "call" and isinstance(s[1], str) and s[1].startswith("<Token as cmp::PartialEq>::"):
+                    compared += [s[2], s[3]].count(("ctor", tvfull))  # a comparison does not produce a token
+                if s == ("ctor", tvfull) and "tokenizer::" not in g.key:
+                    ans_made.append(g.key)
+            for _ in range(compared):
+                if g.key in ans_made:
+                    ans_made.remove(g.key)
+        run.ob(reads == ["parse_number"], "field-read|%s" % ev, "C14 the stored placeholder is read exactly once, by the `@` arm", where(m, "::parser::Parser::parse_number"), "reads in %s" % reads,
+               sample={"evaluator": ev, "reads_of_placeholder_field": reads})
+        run.ob(not ans_made, "ans-token-source|%s" % ev, "C14 only the tokenizer's `@` rule produces the placeholder token", ev, "constructed in %s" % ans_made[:3])
         run.ob(True, "field-write-census|%s" % ev, "C14", ev, sample={"evaluator": ev, "writes_to_placeholder_field": nwrites})
         # behaves like a constant: category DefaultZero, not an implicit-product trigger (C12 shows the trigger set)
         run.ob(m.tb.category_of(tv) == "DefaultZero", "category|%s" % ev, "C14 `@` has the loosest category (it never continues an expression)", where(m, "::token::Token::get_oper_prec"), str(m.tb.category_of(tv)))
